@@ -484,7 +484,7 @@ def run(rng, res, tier, shard, nshards):
         if len(res.samples) < 3 and nontrivial(hist):
             res.sample({'start': start[0], 'history': hist[:12]})
         if f:
-            small = shrink(start, hist, f[0])
+            small = shrink(start, hist, f[0]) if (f[0] not in res.viol_counts and len(res.viol_counts) < 4) else hist
             res.violation(f[0], f[1], {'start': list(start), 'history': small, 'original_history': hist})
     if budget.timed_out():
         res.notes['time-cap-hit'] = True
